@@ -10,7 +10,8 @@ Extras == [z : BOOLEAN, mark : BOOLEAN, many : BOOLEAN]
 \* C05: one segment per request
 AlignedCuts(rs) == {EndPos(rs, k) : k \in 1..(Len(rs) - 1)}
 
-GChooseReqs == /\ pc = "setup-reqs" /\ \E rs \in ReqSeqs : reqs' = rs
+\* C06 quantifies over sequences of (well-formed) requests; refused requests are part of C05's histories only
+GChooseReqs == /\ pc = "setup-reqs" /\ \E rs \in ReqSeqs : (reqs' = rs /\ (MODE = "c06" => \A k \in DOMAIN rs : ~rs[k].bad))
                /\ pc' = "setup-cuts" /\ UNCHANGED <<cuts, inbox, buf, cur, resp, dropped>>
 GChooseCuts == /\ pc = "setup-cuts"
                /\ \E cs \in (IF MODE = "c05" THEN {AlignedCuts(reqs)} ELSE CutSets(Len(Stream(reqs)) - 1, MaxCuts)) :
